@@ -183,14 +183,27 @@ class Fn:
             return int(d["int"])
         if b is not None and d.get("k") in ("copy", "move") and not d["place"]["proj"]:
             n = d["place"]["local"]
-            for st in reversed(self.blocks[b]["stmts"]):
-                if st["k"] == "assign" and st["place"]["local"] == n:
-                    if st["place"]["proj"]:
-                        return None
-                    rv = st["rv"]
-                    if rv["k"] == "use" and rv["op"].get("k") == "const" and "int" in rv["op"] and "param" not in rv["op"]:
-                        return int(rv["op"]["int"])
+            stmts = self.blocks[b]["stmts"]
+            upto = len(stmts)
+            for _ in range(4):  # follow plain copies of a literal within the block
+                found = None
+                for k in range(upto - 1, -1, -1):
+                    st = stmts[k]
+                    if st["k"] == "assign" and st["place"]["local"] == n:
+                        found = (k, st)
+                        break
+                if found is None:
                     return None
+                k, st = found
+                if st["place"]["proj"]:
+                    return None
+                rv = st["rv"]
+                if rv["k"] == "use" and rv["op"].get("k") == "const" and "int" in rv["op"] and "param" not in rv["op"]:
+                    return int(rv["op"]["int"])
+                if rv["k"] == "use" and rv["op"].get("k") in ("copy", "move") and not rv["op"]["place"]["proj"]:
+                    n, upto = rv["op"]["place"]["local"], k
+                    continue
+                return None
         return None
 
     def succ_edges(self, b):
@@ -714,6 +727,9 @@ class Fn:
         if k == "binop":
             return ("binop", rv["op"], self.operand_expr(rv["a"], b, i), self.operand_expr(rv["b"], b, i))
         if k == "unop":
+            if rv["op"] == "PtrMetadata" and "[" in str((rv["a"].get("place") or {}).get("ty", "")):
+                # the metadata of a slice pointer is its length (what slice patterns and `len()` both read)
+                return ("pcall", "<[T]>::len", (self.operand_expr(rv["a"], b, i),))
             return ("unop", rv["op"], self.operand_expr(rv["a"], b, i))
         if k == "cast":
             inner = self.operand_expr(rv["op"], b, i)
